@@ -121,8 +121,9 @@ type C1Outcome struct {
 	Err      error
 	Returned bool
 	Elapsed  time.Duration
-	Rec      []IORec // transport calls as the transport saw them
-	Consumed []byte  // bytes handed to the client by Read calls
+	Start    time.Duration // simulated time at which Do was called
+	Rec      []IORec       // transport calls as the transport saw them
+	Consumed []byte        // bytes handed to the client by Read calls
 	Written  []byte
 	Hooks    []hookRec
 	Panic    *PanicRec
@@ -327,6 +328,7 @@ func RunC1(rc *RunCtx, sc *C1) *C1Outcome {
 			req = nil
 		}
 		t0 := s.Now()
+		out.Start = t0
 		out.Resp, out.Err = doer.Do(ctx, req)
 		out.Elapsed = s.Now() - t0
 		out.Returned = true
